@@ -46,9 +46,11 @@ EXPRESSIONS names | int >= 0, str, None, True, False literals | 2-tuples | self.
           <regex>.search(<str>)   self.<method>(args)   <external>(args)
 Everything that can raise becomes a monadic bind, emitted in Python's evaluation order."""
 import ast, re
-from astlib import TableError, find_func, cstr, cnat
+from astlib import TableError, find_func, cstr, cnat, cq, float_lit_exact
 
 NAT, BOOL, TRUTH, STR, REGEX, NONE = 'nat', 'bool', 'truth', 'str', 'regex', 'none'
+INT, QNUM, OPAQUE, FLOATLIT = 'int', 'Q', 'opaque', 'floatlit'
+DYN, UNIT, MSG, NDARRAY = 'dyn', 'unit', 'msg', 'ndarray'
 
 
 def LIST(t):
@@ -63,21 +65,33 @@ def PAIR(a, b):
     return ('pair', a, b)
 
 
+def DICT(k, t):
+    return ('dict', k, t)
+
+
+def SET(t):
+    return ('set', t)
+
+
 CNAME = PAIR(STR, STR)
 
 RESERVED = set('''if then else let in match with end fun do forall exists as return at using where fix cofix for Type Prop Set
 Ok Err Some None true false negb andb orb tt fst snd nat bool list option unit str res bind
 EValue EIndex EKey EType ECrash Ret Next BPos BNeg pslice py_index py_floordiv py_mod py_sub py_range py_all py_for
-py_list_eqb py_pair_eqb py_option_eqb py_in py_join str_eqb length app map Nat List Bool PyOps2 cname N Z Q'''.split())
+py_list_eqb py_pair_eqb py_option_eqb py_in py_join py_enumerate py_dict_get py_bound_o bnd_of_Z allclose rtol_default
+dyn_int dyn_is_none dyn_eq_int dyn_getitem dyn_len dyn_iter dyn_contains dyn_index dyn_items dyn_mul py_set py_subset py_inter
+jv jv_eqb JStr JInt JNull JArr JObj JBool JNum
+str_eqb length app map Nat List Bool PyOps2 cname N Z Q'''.split())
 
-EXC = {'ValueError': 'EValue', 'IndexError': 'EIndex', 'KeyError': 'EKey', 'TypeError': 'EType'}
+EXC = {'ValueError': 'EValue', 'IndexError': 'EIndex', 'KeyError': 'EKey', 'TypeError': 'EType',
+       'InvalidExtensionError': 'EInvalidExt'}
 
 
 class Fn:
     """Declared signature of one translated function."""
 
     def __init__(self, coq_name, rel, name, ret, params, cls=None, inner=None, self_attrs=None, closure=None,
-                 tparams=(), eqs=None, externals=None, returns_inner=None):
+                 tparams=(), eqs=None, externals=None, returns_inner=None, templates=None, vops=None, prop=False):
         self.coq_name, self.rel, self.name, self.cls, self.inner = coq_name, rel, name, cls, inner
         self.externals = dict(externals or {})   # dotted Python name -> (Coq parameter name, [argument types], result type)
         self.returns_inner = returns_inner       # the function ends with `def <inner>..; return <inner>` (a closure)
@@ -87,7 +101,15 @@ class Fn:
         self.closure = list(closure or [])       # [(name, type)] free variables of an inner function
         self.tparams = tuple(tparams)            # type variables
         self.eqs = dict(eqs or {})               # type variable -> name of its equality parameter
+        # external READS: [dict(src=<python expression with holes _0, _1..>, holes=[types], ret=type, param=<Coq parameter
+        # name or None>, fmt=<format of the Coq term, {i} = hole i> or None)]; an expression that matches `src` becomes the
+        # parameter applied to its (non-opaque) holes.  A hole of type FLOATLIT matches a numeric literal (-> exact Q).
+        self.templates = list(templates or [])
+        self.prop = prop                         # the function is the getter of a property (decorated with @property)
+        self.vops = dict(vops or {})             # type variable -> {'index': <Coq parameter  V -> bnd -> res V>}
         self.used_attrs = None                   # filled by the translation: attributes actually needed (incl. callees)
+        self.used_vops_ = []
+        self.used_tparams = []                   # filled by the translation: [(parameter name, Coq type)] of the templates used
         self.lineno = None
 
 
@@ -98,7 +120,11 @@ class Tr:
         self.binds = []
         self.used = set()
         self.used_ext = set()
+        self.used_tpl = []           # [(parameter name, Coq type text)] in order of first use
+        self.used_vops = []
+        self.tpl_nodes = [ast.parse(t['src'], mode='eval').body for t in spec.templates]
         self.loop_depth = 0
+        self.loop_ks = []
         self.size = 0
 
     # ------------------------------------------------------------------ helpers
@@ -123,6 +149,20 @@ class Tr:
     def ctype(self, t):
         if t in (NAT,):
             return 'nat'
+        if t == INT:
+            return 'Z'
+        if t == QNUM:
+            return 'Q'
+        if t in (OPAQUE, UNIT, MSG):
+            return 'unit'
+        if t == DYN:
+            return 'jv'
+        if t == NDARRAY:
+            return '(list nat)'
+        if isinstance(t, tuple) and t[0] == 'set':
+            return '(list %s)' % self.ctype(t[1])
+        if isinstance(t, tuple) and t[0] == 'dict':
+            return '(list (%s * %s))' % (self.ctype(t[1]), self.ctype(t[2]))
         if t in (BOOL, TRUTH):
             return 'bool'
         if t == STR:
@@ -161,10 +201,14 @@ class Tr:
     def eqb(self, t, node):
         if t == NAT:
             return 'Nat.eqb'
+        if t == INT:
+            return 'Z.eqb'
         if t == BOOL:
             return 'Bool.eqb'
         if t == STR:
             return 'str_eqb'
+        if t == DYN:
+            return 'jv_eqb'
         if self.is_tvar(t):
             if t not in self.spec.eqs:
                 self.fail(node, 'equality on values of type %s, which has no equality parameter' % t)
@@ -181,6 +225,10 @@ class Tr:
         """make two operands of == / in the same type: T vs option T -> Some; None vs option T -> None"""
         if ta == tb and ta != NONE:
             return a, b, ta
+        if (ta, tb) == (NAT, INT):
+            return '(Z.of_nat %s)' % a, b, INT
+        if (ta, tb) == (INT, NAT):
+            return a, '(Z.of_nat %s)' % b, INT
         if isinstance(tb, tuple) and tb[0] == 'option' and ta in (tb[1], NONE):
             return ('None' if ta == NONE else '(Some %s)' % a), b, tb
         if isinstance(ta, tuple) and ta[0] == 'option' and tb in (ta[1], NONE):
@@ -192,6 +240,8 @@ class Tr:
             return t
         if ty == NAT:
             return '(negb (Nat.eqb %s 0))' % t
+        if ty == INT:
+            return '(negb (Z.eqb %s 0%%Z))' % t
         if ty == STR or (isinstance(ty, tuple) and ty[0] == 'list'):
             return '(negb (Nat.eqb (List.length %s) 0))' % t
         if ty == REGEX or (isinstance(ty, tuple) and ty[0] == 'pair'):
@@ -207,12 +257,31 @@ class Tr:
             return term
         if to == TRUTH:
             return self.truth(term, ty, node)
+        if to == INT and ty == NAT:
+            return '(Z.of_nat %s)' % term
+        if to == DYN and ty == STR:
+            return '(JStr %s)' % term
+        if to == DYN and ty == INT:
+            return '(JInt %s)' % term
+        if to == DYN and ty == NAT:
+            return '(JInt (Z.of_nat %s))' % term
+        if to == DYN and ty == NONE:
+            return 'JNull'
+        if isinstance(to, tuple) and to[0] in ('list', 'set') and isinstance(ty, tuple) and ty[0] == to[0] and to[1] == DYN \
+                and ty[1] in (STR, INT, NAT):
+            return '(List.map (fun x__ => %s) %s)' % (self.coerce('x__', ty[1], DYN, node), term)
         if isinstance(to, tuple) and to[0] == 'option':
             if ty == NONE:
                 return 'None'
             if ty == to[1]:
                 return '(Some %s)' % term
         self.fail(node, 'a value of type %r where %r is expected' % (ty, to))
+
+    def coerce_m(self, term, ty, to, node):
+        """coerce, possibly with a bind: a dynamic value where an int is expected is converted (TypeError otherwise)"""
+        if ty == DYN and to == INT:
+            return self.bind('dyn_int %s' % term)
+        return self.coerce(term, ty, to, node)
 
     # ------------------------------------------------------------------ expressions
     def bound(self, b, env):
@@ -223,9 +292,71 @@ class Tr:
                 and isinstance(b.operand.value, int) and not isinstance(b.operand.value, bool) and b.operand.value > 0:
             return '(BNeg %s)' % cnat(b.operand.value)
         t, ty = self.expr(b, env)
+        if ty == INT:
+            return '(bnd_of_Z %s)' % t
+        if ty == OPT(NAT):           # an index that may be None: TypeError
+            return self.bind('py_bound_o %s' % t)
         if ty != NAT:
             self.fail(b, 'index / slice bound of type %r' % (ty,))
         return '(BPos %s)' % t
+
+    # ------------------------------------------------------------------ external reads (templates)
+    def tmatch(self, t, n, holes):
+        if isinstance(t, ast.Name) and re.match(r'^_\d+$', t.id):
+            holes[int(t.id[1:])] = n
+            return True
+        if type(t) is not type(n):
+            return False
+        for f in t._fields:
+            if f in ('ctx', 'kind', 'type_comment'):
+                continue
+            a, b = getattr(t, f, None), getattr(n, f, None)
+            if isinstance(a, list):
+                if not isinstance(b, list) or len(a) != len(b) or not all(self.tmatch(x, y, holes) for x, y in zip(a, b)):
+                    return False
+            elif isinstance(a, ast.AST):
+                if not isinstance(b, ast.AST) or not self.tmatch(a, b, holes):
+                    return False
+            elif a != b or type(a) is not type(b):
+                return False
+        return True
+
+    def template(self, e, env):
+        """-> (term, type) when e is an instance of a declared external read, else None"""
+        if isinstance(e, (ast.Name, ast.Constant)):
+            return None
+        for tpl, node in zip(self.spec.templates, self.tpl_nodes):
+            holes = {}
+            if not self.tmatch(node, e, holes):
+                continue
+            if sorted(holes) != list(range(len(tpl['holes']))):
+                self.fail(e, 'template %s: holes do not match its declaration' % tpl['src'])
+            args = []
+            for i, ht in enumerate(tpl['holes']):
+                if ht == FLOATLIT:
+                    try:
+                        args.append(cq(float_lit_exact(holes[i])))
+                    except TableError:
+                        self.fail(e, 'template %s: hole %d must be a numeric literal' % (tpl['src'], i))
+                    continue
+                a, ta = self.expr(holes[i], env)
+                args.append(self.coerce(a, ta, ht, holes[i]))
+            if tpl.get('param'):
+                sig = ' -> '.join([self.ctype(t) for t in tpl['holes'] if t not in (OPAQUE, FLOATLIT)]
+                                  + [('res ' if tpl.get('monadic') else '') + self.ctype(tpl['ret'])])
+                if (tpl['param'], sig) not in self.used_tpl:
+                    if any(n_ == tpl['param'] for n_, _ in self.used_tpl):
+                        self.fail(e, 'two external reads share the parameter %s with different types' % tpl['param'])
+                    self.used_tpl.append((tpl['param'], sig))
+            if tpl.get('fmt'):
+                term = tpl['fmt'].format(*args)
+            else:
+                real = [a for a, ht in zip(args, tpl['holes']) if ht != OPAQUE]
+                term = tpl['param'] if not real else '(%s %s)' % (tpl['param'], ' '.join(real))
+            if tpl.get('monadic'):        # the external read can raise: its parameter returns a `res`
+                return self.bind(term), tpl['ret']
+            return term, tpl['ret']
+        return None
 
     def expr(self, e, env):
         """-> (Coq term, type); everything that can raise is appended to self.binds in evaluation order"""
@@ -251,6 +382,9 @@ class Tr:
             if isinstance(v, str):
                 return cstr(v), STR
             self.fail(e, 'unsupported literal %r' % (v,))
+        r = self.template(e, env)
+        if r is not None:
+            return r
         if isinstance(e, ast.Tuple):
             if len(e.elts) != 2:
                 self.fail(e, 'only 2-tuples are supported')
@@ -265,7 +399,13 @@ class Tr:
                     if a == e.attr:
                         self.used.add(a)
                         return 'self_' + a, t
+                callee = self.registry.get((self.spec.cls, e.attr))
+                if callee is not None and callee.prop:
+                    return self.call_method(callee, [], env, e)
                 self.fail(e, 'self.%s is not a declared attribute' % e.attr)
+            v, tv = self.expr(e.value, env)
+            if tv == NDARRAY and e.attr == 'shape':
+                return v, LIST(NAT)
             self.fail(e, 'unsupported attribute access .%s' % e.attr)
         if isinstance(e, ast.Compare):
             return self.compare(e, env)
@@ -294,6 +434,28 @@ class Tr:
             return '(List.map (fun %s => %s) %s)' % (v, c, seq), LIST(tc)
         if isinstance(e, ast.Subscript):
             a, ta = self.expr(e.value, env)
+            if isinstance(ta, tuple) and ta[0] == 'dict' and not isinstance(e.slice, ast.Slice):
+                k, tk = self.expr(e.slice, env)
+                return self.bind('py_dict_get %s %s %s' % (self.eqb(ta[1], e), a, self.coerce(k, tk, ta[1], e))), ta[2]
+            if isinstance(ta, tuple) and ta[0] == 'pair' and isinstance(e.slice, ast.Constant) and e.slice.value in (0, 1) \
+                    and not isinstance(e.slice.value, bool):
+                return '(%s %s)' % ('fst' if e.slice.value == 0 else 'snd', a), ta[1 + e.slice.value]
+            if ta == DYN and not isinstance(e.slice, ast.Slice):
+                k, tk = self.expr(e.slice, env)
+                if tk != STR:
+                    self.fail(e, 'subscript of a dynamic value with a key of type %r' % (tk,))
+                return self.bind('dyn_getitem %s %s' % (a, k)), DYN
+            if ta == LIST(DYN) and not isinstance(e.slice, ast.Slice) and not isinstance(e.slice, (ast.Constant, ast.UnaryOp)):
+                k, tk = self.lazy(lambda: self.expr(e.slice, env))[0]
+                if tk == DYN:
+                    k, tk = self.expr(e.slice, env)
+                    return self.bind('dyn_index %s %s' % (a, k)), DYN
+            if self.is_tvar(ta) and 'index' in self.spec.vops.get(ta, {}) and not isinstance(e.slice, ast.Slice):
+                op = self.spec.vops[ta]['index']
+                if op not in self.used_vops:
+                    self.used_vops.append(op)
+                i = self.bound(e.slice, env)
+                return self.bind('%s %s %s' % (op, a, i)), ta
             if not (ta == STR or (isinstance(ta, tuple) and ta[0] == 'list')):
                 self.fail(e, 'subscript of a value of type %r' % (ta,))
             if isinstance(e.slice, ast.Slice):
@@ -309,6 +471,15 @@ class Tr:
         self.fail(e, 'unsupported expression %s' % ast.dump(e)[:100])
 
     def compare(self, e, env):
+        if len(e.ops) == 2 and all(isinstance(o, (ast.Lt, ast.LtE, ast.Gt, ast.GtE)) for o in e.ops):
+            # a op1 b op2 c: b is evaluated once, c only when the first comparison holds
+            a, ta = self.expr(e.left, env)
+            b, tb = self.expr(e.comparators[0], env)
+            r1 = self.order(e.ops[0], a, ta, b, tb, e)
+            (r2, binds) = self.lazy(lambda: self.order(e.ops[1], b, tb, *self.expr(e.comparators[1], env), e))
+            if binds:
+                return self.bind('(if %s then %s else Ok false)' % (r1, self.wrap(binds, 'Ok %s' % r2))), BOOL
+            return '(andb %s %s)' % (r1, r2), BOOL
         if len(e.ops) != 1:
             self.fail(e, 'chained comparison')
         op, rhs = e.ops[0], e.comparators[0]
@@ -316,12 +487,29 @@ class Tr:
             if not (isinstance(rhs, ast.Constant) and rhs.value is None):
                 self.fail(e, '`is` with something else than None')
             a, ta = self.expr(e.left, env)
+            if ta == DYN:
+                return ('(dyn_is_none %s)' if isinstance(op, ast.Is) else '(negb (dyn_is_none %s))') % a, BOOL
             if not (isinstance(ta, tuple) and ta[0] == 'option'):
                 self.fail(e, '`is None` on a value of type %r' % (ta,))
             yes, no = ('true', 'false') if isinstance(op, ast.Is) else ('false', 'true')
             return '(match %s with None => %s | Some _ => %s end)' % (a, yes, no), BOOL
         a, ta = self.expr(e.left, env)
+        if isinstance(ta, tuple) and ta[0] == 'list' and isinstance(rhs, ast.Tuple) and isinstance(op, (ast.Eq, ast.NotEq)):
+            # a list / tuple value compared with a tuple display: element-wise
+            els = [self.coerce(*self.expr(x, env), ta[1], x) for x in rhs.elts]
+            r = '(%s %s [%s])' % (self.eqb(ta, e), a, '; '.join(els))
+            return (r if isinstance(op, ast.Eq) else '(negb %s)' % r), BOOL
         b, tb = self.expr(rhs, env)
+        if isinstance(op, (ast.Eq, ast.NotEq)) and DYN in (ta, tb) and (ta in (NAT, INT) or tb in (NAT, INT)):
+            d, n, tn = (a, b, tb) if ta == DYN else (b, a, ta)
+            r = '(dyn_eq_int %s %s)' % (d, self.coerce(n, tn, INT, e))
+            return (r if isinstance(op, ast.Eq) else '(negb %s)' % r), BOOL
+        if isinstance(op, (ast.In, ast.NotIn)) and tb == DYN:
+            r = self.bind('dyn_contains %s %s' % (b, self.coerce(a, ta, DYN, e)))
+            return (r if isinstance(op, ast.In) else '(negb %s)' % r), BOOL
+        if isinstance(op, ast.LtE) and isinstance(ta, tuple) and ta[0] == 'set' and isinstance(tb, tuple) and tb[0] == 'set':
+            a, b, t = self.set_unify(a, ta, b, tb, e)
+            return '(py_subset %s %s %s)' % (self.eqb(t[1], e), a, b), BOOL
         if isinstance(op, (ast.Eq, ast.NotEq)):
             a, b, t = self.unify(a, ta, b, tb, e)
             r = '(%s %s %s)' % (self.eqb(t, e), a, b)
@@ -333,16 +521,35 @@ class Tr:
                 self.fail(e, '`in`: element type %r, list of %r' % (ta, tb[1]))
             r = '(py_in %s %s %s)' % (self.eqb(ta, e), a, b)
             return (r if isinstance(op, ast.In) else '(negb %s)' % r), BOOL
-        if ta != NAT or tb != NAT:
+        return self.order(op, a, ta, b, tb, e), BOOL
+
+    def set_unify(self, a, ta, b, tb, e):
+        if ta == tb:
+            return a, b, ta
+        if ta[1] == DYN:
+            return a, self.coerce(b, tb, ta, e), ta
+        if tb[1] == DYN:
+            return self.coerce(a, ta, tb, e), b, tb
+        self.fail(e, 'sets of different element types %r and %r' % (ta, tb))
+
+    def order(self, op, a, ta, b, tb, e):
+        if ta == DYN:
+            a, ta = self.bind('dyn_int %s' % a), INT
+        if tb == DYN:
+            b, tb = self.bind('dyn_int %s' % b), INT
+        if ta not in (NAT, INT) or tb not in (NAT, INT):
             self.fail(e, 'ordering comparison of %r and %r' % (ta, tb))
+        m = 'Nat'
+        if INT in (ta, tb):
+            a, b, m = self.coerce(a, ta, INT, e), self.coerce(b, tb, INT, e), 'Z'
         if isinstance(op, ast.Lt):
-            return '(Nat.ltb %s %s)' % (a, b), BOOL
+            return '(%s.ltb %s %s)' % (m, a, b)
         if isinstance(op, ast.LtE):
-            return '(Nat.leb %s %s)' % (a, b), BOOL
+            return '(%s.leb %s %s)' % (m, a, b)
         if isinstance(op, ast.Gt):
-            return '(Nat.ltb %s %s)' % (b, a), BOOL
+            return '(%s.ltb %s %s)' % (m, b, a)
         if isinstance(op, ast.GtE):
-            return '(Nat.leb %s %s)' % (b, a), BOOL
+            return '(%s.leb %s %s)' % (m, b, a)
         self.fail(e, 'unsupported comparison')
 
     def boolop(self, e, i, env):
@@ -376,14 +583,24 @@ class Tr:
         return '(%s %s %s)' % ('andb' if is_and else 'orb', tr, r), outty
 
     def binop(self, op, left, right, node, env):
+        if isinstance(op, ast.Mod) and isinstance(left, ast.Constant) and isinstance(left.value, str):
+            return self.format(left.value, right, node, env)
         a, ta = (left if isinstance(left, tuple) else self.expr(left, env))
         b, tb = self.expr(right, env)
-        if isinstance(op, ast.Add):
+        if isinstance(op, ast.BitAnd) and isinstance(ta, tuple) and ta[0] == 'set' and isinstance(tb, tuple) and tb[0] == 'set':
+            a, b, t = self.set_unify(a, ta, b, tb, node)
+            return '(py_inter %s %s %s)' % (self.eqb(t[1], node), a, b), t
+        if isinstance(op, ast.Mult) and DYN in (ta, tb) and ta in (DYN, NAT, INT) and tb in (DYN, NAT, INT):
+            return self.bind('dyn_mul %s %s' % (self.coerce(a, ta, DYN, node), self.coerce(b, tb, DYN, node))), DYN
+        if isinstance(op, ast.Add) and INT not in (ta, tb):
             if ta == NAT and tb == NAT:
                 return '(%s + %s)%%nat' % (a, b), NAT
             if ta == tb and (ta == STR or (isinstance(ta, tuple) and ta[0] == 'list')):
                 return '(%s ++ %s)' % (a, b), ta
             self.fail(node, '+ on %r and %r' % (ta, tb))
+        if INT in (ta, tb) and ta in (NAT, INT) and tb in (NAT, INT) and isinstance(op, (ast.Add, ast.Mult, ast.Sub)):
+            a, b = self.coerce(a, ta, INT, node), self.coerce(b, tb, INT, node)
+            return '(%s %s %s)%%Z' % (a, {ast.Add: '+', ast.Mult: '*', ast.Sub: '-'}[type(op)], b), INT
         if ta != NAT or tb != NAT:
             self.fail(node, 'arithmetic on %r and %r' % (ta, tb))
         if isinstance(op, ast.Mult):
@@ -396,6 +613,31 @@ class Tr:
             return self.bind('py_mod %s %s' % (a, b)), NAT
         self.fail(node, 'unsupported arithmetic operator %s' % type(op).__name__)
 
+    def format(self, fmt, right, node, env):
+        """'<literal>' % args -> an opaque message; a wrong number of arguments is the TypeError Python raises"""
+        convs = re.findall(r'%(.)', fmt)
+        if any(c not in 'srd%' for c in convs):
+            self.fail(node, 'message format with a conversion other than %s / %r / %d')
+        convs = [c for c in convs if c != '%']
+        if isinstance(right, ast.Tuple):        # an explicit argument tuple: one argument per element
+            tys = []
+            for el in right.elts:
+                _, tel = self.expr(el, env)
+                if tel in (NONE, TRUTH):
+                    self.fail(node, 'message argument of undetermined type')
+                tys.append(tel)
+        else:
+            _, ty = self.expr(right, env)
+            if isinstance(ty, tuple) and ty[0] == 'pair':
+                tys = [ty[1], ty[2]]          # a 2-tuple VALUE counts as two arguments
+            elif ty in (NAT, INT, STR, BOOL) or (isinstance(ty, tuple) and ty[0] == 'option' and ty[1] in (NAT, INT, STR, BOOL)):
+                tys = [ty]
+            else:
+                self.fail(node, 'message argument of type %r (tuple or not?)' % (ty,))
+        if len(convs) != len(tys) or any(c == 'd' and t not in (NAT, INT) for c, t in zip(convs, tys)):
+            return self.bind('(Err EType : res unit)'), MSG     # "not all arguments converted" / "%d format: a number is required"
+        return 'tt', MSG
+
     def call(self, e, env):
         if e.keywords or any(isinstance(a, ast.Starred) for a in e.args):
             self.fail(e, 'keyword / starred arguments')
@@ -403,7 +645,9 @@ class Tr:
         if isinstance(f, ast.Name) and f.id not in env:
             if f.id == 'len' and len(e.args) == 1:
                 a, ta = self.expr(e.args[0], env)
-                if ta == STR or (isinstance(ta, tuple) and ta[0] == 'list'):
+                if ta == DYN:
+                    return self.bind('dyn_len %s' % a), NAT
+                if ta == STR or (isinstance(ta, tuple) and ta[0] in ('list', 'set')):
                     return '(List.length %s)' % a, NAT
                 self.fail(e, 'len() of a value of type %r' % (ta,))
             if f.id == 'int' and len(e.args) == 1:
@@ -423,6 +667,25 @@ class Tr:
                     self.fail(e, 'range() of non-integers')
                 lo, hi = ('0', args[0][0]) if len(args) == 1 else (args[0][0], args[1][0])
                 return '(py_range %s %s)' % (lo, hi), LIST(NAT)
+            if f.id in ('tuple', 'set') and len(e.args) == 1:
+                a, ta = self.expr(e.args[0], env)
+                if ta == DYN:
+                    a, ta = self.bind('dyn_iter %s' % a), LIST(DYN)
+                if not (isinstance(ta, tuple) and ta[0] in ('list', 'set')):
+                    self.fail(e, '%s() of a value of type %r' % (f.id, ta))
+                if f.id == 'tuple':
+                    return a, LIST(ta[1])
+                return '(py_set %s %s)' % (self.eqb(ta[1], e), a), SET(ta[1])
+            if f.id == 'iteritems' and len(e.args) == 1:
+                a, ta = self.expr(e.args[0], env)
+                if ta != DYN:
+                    self.fail(e, 'iteritems() of a value of type %r' % (ta,))
+                return self.bind('dyn_items %s' % a), LIST(PAIR(STR, DYN))
+            if f.id == 'enumerate' and len(e.args) == 1:
+                a, ta = self.expr(e.args[0], env)
+                if not (isinstance(ta, tuple) and ta[0] == 'list'):
+                    self.fail(e, 'enumerate() of a value of type %r' % (ta,))
+                return '(py_enumerate %s)' % a, LIST(PAIR(NAT, ta[1]))
             if f.id == 'all' and len(e.args) == 1 and isinstance(e.args[0], ast.GeneratorExp):
                 g = e.args[0]
                 if len(g.generators) != 1 or g.generators[0].ifs or g.generators[0].is_async \
@@ -440,9 +703,15 @@ class Tr:
             self.fail(e, 'unsupported call %s(..)' % f.id)
         if isinstance(f, ast.Attribute) and isinstance(f.value, ast.Name) and f.value.id == 'self' and 'self' not in env:
             callee = self.registry.get((self.spec.cls, f.attr))
-            if callee is None or callee.used_attrs is None:
+            if callee is None or callee.used_attrs is None or callee.prop:
                 self.fail(e, 'self.%s() is not a translated method' % f.attr)
-            if len(e.args) != len(callee.params):
+            return self.call_method(callee, e.args, env, e)
+        return self.call_rest(e, env)
+
+    def call_method(self, callee, arg_nodes, env, e):
+        if True:
+            f = ast.Attribute(value=None, attr=callee.name)
+            if len(arg_nodes) != len(callee.params):
                 self.fail(e, 'self.%s(): wrong number of arguments' % f.attr)
             args = []
             mine = dict(self.spec.self_attrs)
@@ -452,12 +721,24 @@ class Tr:
                         self.fail(e, 'self.%s() needs self.%s, which this function does not declare' % (f.attr, a))
                     self.used.add(a)
                     args.append('self_' + a)
-            for x, (_, t) in zip(e.args, callee.params):
+            for pn, sig in callee.used_tparams:
+                mine_t = [t_ for t_ in self.spec.templates if t_.get('param') == pn]
+                sigs = set(' -> '.join([self.ctype(t) for t in t_['holes'] if t not in (OPAQUE, FLOATLIT)]
+                                       + [('res ' if t_.get('monadic') else '') + self.ctype(t_['ret'])]) for t_ in mine_t)
+                if sigs != {sig}:
+                    self.fail(e, 'self.%s() needs the external read %s, which this function does not declare' % (f.attr, pn))
+                if (pn, sig) not in self.used_tpl:
+                    self.used_tpl.append((pn, sig))
+                args.append(pn)
+            for x, (_, t) in zip(arg_nodes, callee.params):
                 a, ta = self.expr(x, env)
-                args.append(self.coerce(a, ta, t, x))
-            if callee.tparams or callee.closure:
+                args.append(self.coerce_m(a, ta, t, x))
+            if callee.tparams or callee.closure or callee.used_vops_:
                 self.fail(e, 'call of a polymorphic / inner function')
-            return self.bind('%s %s' % (callee.coq_name, ' '.join(args))), callee.ret
+            return self.bind(('%s %s' % (callee.coq_name, ' '.join(args))).rstrip()), callee.ret
+
+    def call_rest(self, e, env):
+        f = e.func
         if isinstance(f, ast.Attribute) and f.attr == 'join' and len(e.args) == 1 and isinstance(f.value, ast.Constant) \
                 and isinstance(f.value.value, str):
             a, ta = self.expr(e.args[0], env)
@@ -517,38 +798,29 @@ class Tr:
             self.fail(st, 'exception with several arguments')
         binds = []
         if args:
-            a = args[0]
-            if isinstance(a, ast.Constant) and isinstance(a.value, str):
-                pass
-            elif isinstance(a, ast.BinOp) and isinstance(a.op, ast.Mod) and isinstance(a.left, ast.Constant) \
-                    and isinstance(a.left.value, str):
-                convs = re.findall(r'%(.)', a.left.value)
-                if any(c not in 'sr%' for c in convs):
-                    self.fail(st, 'message format with a conversion other than %s / %r')
-                n = len([c for c in convs if c != '%'])
-                if isinstance(a.right, ast.Tuple):      # an explicit argument tuple: one argument per element
-                    binds, ty = [], None
-                    for el in a.right.elts:
-                        b, _, tel = self.stmt_expr(el, env)
-                        if tel in (NONE, TRUTH):
-                            self.fail(st, 'message argument of undetermined type')
-                        binds += b
-                    nargs = len(a.right.elts)
-                else:
-                    binds, t, ty = self.stmt_expr(a.right, env)
-                if isinstance(a.right, ast.Tuple):
-                    pass
-                elif isinstance(ty, tuple) and ty[0] == 'pair':
-                    nargs = 2
-                elif ty in (NAT, STR, BOOL) or (isinstance(ty, tuple) and ty[0] == 'option' and ty[1] in (NAT, STR, BOOL)):
-                    nargs = 1
-                else:
-                    self.fail(st, 'message argument of type %r (tuple or not?)' % (ty,))
-                if n != nargs:
-                    return binds, 'Err EType'     # "not all arguments converted" / "not enough arguments"
-            else:
-                self.fail(st, 'exception message is not a string literal [% value]')
+            binds, _, ty = self.stmt_expr(args[0], env)
+            if ty not in (STR, MSG):
+                self.fail(st, 'exception message of type %r' % (ty,))
         return binds, 'Err %s' % EXC[name]
+
+    @staticmethod
+    def norm_test(c):
+        """`not (x is None)` -> `x is not None` (and conversely)"""
+        if isinstance(c, ast.UnaryOp) and isinstance(c.op, ast.Not) and isinstance(c.operand, ast.Compare) \
+                and len(c.operand.ops) == 1 and isinstance(c.operand.ops[0], (ast.Is, ast.IsNot)):
+            o = c.operand
+            return ast.copy_location(ast.Compare(left=o.left, ops=[ast.IsNot() if isinstance(o.ops[0], ast.Is) else ast.Is()],
+                                                 comparators=o.comparators), c)
+        return c
+
+    def none_test(self, c, env):
+        """'is' / 'isnot' when c is `<option-typed variable> is [not] None`, else None"""
+        c = self.norm_test(c)
+        if isinstance(c, ast.Compare) and len(c.ops) == 1 and isinstance(c.ops[0], (ast.Is, ast.IsNot)) \
+                and isinstance(c.left, ast.Name) and isinstance(c.comparators[0], ast.Constant) \
+                and c.comparators[0].value is None and isinstance(env.get(c.left.id), tuple) and env[c.left.id][0] == 'option':
+            return 'is' if isinstance(c.ops[0], ast.Is) else 'isnot'
+        return None
 
     def block(self, stmts, env, k, ret, ind):
         """stmts: remaining statements; k(env, ind) -> text for falling off the end; ret(term, type, node) -> text"""
@@ -567,7 +839,7 @@ class Tr:
                 binds, t, ty = self.stmt_expr(st.value, env)
             else:
                 tgt = st.target
-                if not (isinstance(tgt, ast.Name) and env.get(tgt.id) == NAT):
+                if not (isinstance(tgt, ast.Name) and env.get(tgt.id) in (NAT, INT, DYN)):
                     self.fail(st, 'augmented assignment to something else than a known integer variable')
                 (t, ty), binds = self.lazy(lambda: self.binop(st.op, (tgt.id, env[tgt.id]), st.value, st, env))
             if ty == TRUTH:
@@ -615,13 +887,18 @@ class Tr:
                 self.fail(rest[0], 'statement after return')
             if st.value is None:
                 return pad + ret('None', NONE, st) + '\n'
-            binds, t, ty = self.stmt_expr(st.value, env)
+            (t, ty), binds = self.lazy(lambda: (lambda t_, ty_: (self.coerce_m(t_, ty_, self.spec.ret, st), self.spec.ret)
+                                                 if (ty_ == DYN and self.spec.ret == INT) else (t_, ty_))(*self.expr(st.value, env)))
             return self.lines(binds, pad) + pad + ret(t, ty, st) + '\n'
         if isinstance(st, ast.Raise):
             if rest:
                 self.fail(rest[0], 'statement after raise')
             binds, t = self.raise_stmt(st, env)
             return self.lines(binds, pad) + pad + t + '\n'
+        if isinstance(st, ast.Continue):
+            if not self.loop_ks:
+                self.fail(st, 'continue outside a loop')
+            return self.loop_ks[-1](env, ind)
         if isinstance(st, ast.Assert):
             if not (isinstance(st.test, ast.Constant) and st.test.value is False and st.msg is None):
                 self.fail(st, 'only `assert False` is supported')
@@ -631,7 +908,17 @@ class Tr:
         if isinstance(st, ast.If):
             def k2(env2, ind2):
                 return self.block(rest, env2, k, ret, ind2)
-            c = st.test
+            c = self.norm_test(st.test)
+            if isinstance(c, ast.BoolOp) and self.none_test(c.values[0], env) is not None:
+                first = c.values[0]
+                rest_t = c.values[1] if len(c.values) == 2 else ast.copy_location(ast.BoolOp(op=c.op, values=c.values[1:]), c)
+                kind = self.none_test(first, env)
+                if isinstance(c.op, ast.Or) and kind == 'is':        # if x is None or R: T else: E
+                    new = ast.If(test=first, body=st.body, orelse=[ast.copy_location(ast.If(test=rest_t, body=st.body, orelse=st.orelse), st)])
+                    return self.block([ast.copy_location(new, st)] + rest, env, k, ret, ind)
+                if isinstance(c.op, ast.And) and kind == 'isnot':    # if x is not None and R: T else: E
+                    new = ast.If(test=first, body=[ast.copy_location(ast.If(test=rest_t, body=st.body, orelse=st.orelse), st)], orelse=st.orelse)
+                    return self.block([ast.copy_location(new, st)] + rest, env, k, ret, ind)
             if isinstance(c, ast.Compare) and len(c.ops) == 1 and isinstance(c.ops[0], (ast.Is, ast.IsNot)) \
                     and isinstance(c.left, ast.Name) and isinstance(c.comparators[0], ast.Constant) \
                     and c.comparators[0].value is None and isinstance(env.get(c.left.id), tuple) and env[c.left.id][0] == 'option':
@@ -657,20 +944,29 @@ class Tr:
                     % (self.lines(binds, pad), pad, self.truth(t, ty, c), self.block(st.body, env, k2, ret, ind + 1), pad,
                        self.block(st.orelse, env, k2, ret, ind + 1)))
         if isinstance(st, ast.For):
-            if st.orelse or not isinstance(st.target, ast.Name):
-                self.fail(st, 'for/else or a non-name loop variable')
+            if st.orelse:
+                self.fail(st, 'for/else')
             for n in ast.walk(st):
-                if isinstance(n, (ast.Break, ast.Continue)):
-                    self.fail(n, 'break / continue')
-            x = self.var(st.target.id, st)
-            if x in env:
-                self.fail(st, 'loop variable %s shadows an existing variable' % x)
+                if isinstance(n, ast.Break):
+                    self.fail(n, 'break')
+            if isinstance(st.target, ast.Name):
+                xs = [self.var(st.target.id, st)]
+            elif isinstance(st.target, ast.Tuple) and len(st.target.elts) == 2 and all(isinstance(x_, ast.Name) for x_ in st.target.elts) \
+                    and st.target.elts[0].id != st.target.elts[1].id:
+                xs = [self.var(x_.id, st) for x_ in st.target.elts]
+            else:
+                self.fail(st, 'unsupported loop target')
+            if any(x_ in env for x_ in xs):
+                self.fail(st, 'a loop variable shadows an existing variable')
             binds, seq, ts = self.stmt_expr(st.iter, env)
             if not (isinstance(ts, tuple) and ts[0] == 'list'):
                 self.fail(st, 'for over a value of type %r' % (ts,))
             carried = [v for v in self.assigned(st.body) if v in env]
-            if x in self.assigned(st.body):
-                self.fail(st, 'the loop variable is assigned in the body')
+            if any(x_ in self.assigned(st.body) for x_ in xs):
+                self.fail(st, 'a loop variable is assigned in the body')
+            if len(xs) == 2 and not (isinstance(ts[1], tuple) and ts[1][0] == 'pair'):
+                self.fail(st, 'two loop variables over elements of type %r' % (ts[1],))
+            x = xs[0] if len(xs) == 1 else "'(%s, %s)" % (xs[0], xs[1])
 
             def tup(vs):
                 return 'tt' if not vs else vs[0] if len(vs) == 1 else '(%s)' % ', '.join(vs)
@@ -687,9 +983,14 @@ class Tr:
             def ret_body(t, ty, node):
                 return 'Ok (Ret %s)' % self.coerce(t, ty, self.spec.ret, node)
             env_body = dict(env)
-            env_body[x] = ts[1]
+            if len(xs) == 1:
+                env_body[xs[0]] = ts[1]
+            else:
+                env_body[xs[0]], env_body[xs[1]] = ts[1][1], ts[1][2]
             self.loop_depth += 1
+            self.loop_ks.append(k_body)
             body = self.block(st.body, env_body, k_body, ret_body, ind + 2)
+            self.loop_ks.pop()
             self.loop_depth -= 1
             c = self.fresh('c')
             after = self.block(rest, env, k, ret, ind + 1)
@@ -697,7 +998,7 @@ class Tr:
             # `ret` of the enclosing level re-wraps a value returned from inside the loop (already coerced)
             return ('%s%sdo %s <- py_for %s %s (fun %s %s =>\n%s%s  );\n%smatch %s with\n%s| Ret %s => %s\n%s| Next %s =>\n%s%send\n'
                     % (self.lines(binds, pad), pad, c, seq, tup(carried), x, pat(carried), body, pad,
-                       pad, c, pad, rv, ret(rv, self.spec.ret, st), pad, pat(carried), after, pad))
+                       pad, c, pad, rv, ret(rv, self.spec.ret, st), pad, pat(carried).lstrip("'"), after, pad))
         self.fail(st, 'unsupported statement %s' % type(st).__name__)
 
     # ------------------------------------------------------------------ the function
@@ -715,8 +1016,8 @@ class Tr:
         if names != [p for p, _ in spec.params]:
             self.fail(fn, 'parameters %r differ from the declared %r' % (names, [p for p, _ in spec.params]))
         for d, (p, t) in zip(a.defaults, spec.params[len(spec.params) - len(a.defaults):]):
-            if not (isinstance(d, ast.Constant) and d.value is None and isinstance(t, tuple) and t[0] == 'option'):
-                self.fail(fn, 'default of parameter %s must be None on an option-typed parameter' % p)
+            if not (isinstance(d, ast.Constant) and d.value is None and ((isinstance(t, tuple) and t[0] == 'option') or self.is_tvar(t))):
+                self.fail(fn, 'default of parameter %s must be None on an option-typed (or value-typed) parameter' % p)
         env = {}
         for p, t in spec.closure + spec.params:
             env[self.var(p, fn)] = t
@@ -725,6 +1026,10 @@ class Tr:
                 self.fail(fn, 'unsupported decorator')
 
         def k_top(env2, ind2):
+            if spec.ret == UNIT:
+                return '%sOk tt\n' % ('  ' * ind2)
+            if spec.ret == TRUTH or (isinstance(spec.ret, tuple) and spec.ret[0] == 'option'):
+                return '%sOk %s\n' % ('  ' * ind2, self.coerce('None', NONE, spec.ret, fn))     # implicit `return None`
             self.fail(fn, 'the function can fall off its end (implicit return None)')
 
         def ret_top(t, ty, node):
@@ -732,6 +1037,9 @@ class Tr:
         body = self.block(list(fn.body), env, k_top, ret_top, 1)
         used = set(self.used)
         spec.used_attrs = [a_ for a_, _ in spec.self_attrs if a_ in used]
+        order = [t_.get('param') for t_ in spec.templates]
+        spec.used_tparams = sorted(self.used_tpl, key=lambda x_: order.index(x_[0]))
+        spec.used_vops_ = list(self.used_vops)
         params = []
         for tv in spec.tparams:
             params.append('{%s : Type}' % tv)
@@ -742,6 +1050,12 @@ class Tr:
             if ext in self.used_ext:
                 name, targs, tret = spec.externals[ext]
                 params.append('(%s : %s)' % (self.var(name, fn), ' -> '.join(self.ctype(t) for t in targs + [tret])))
+        for tv in spec.tparams:
+            for opk, opn in sorted(spec.vops.get(tv, {}).items()):
+                if opn in self.used_vops:
+                    params.append('(%s : %s -> bnd -> res %s)' % (self.var(opn, fn), tv, tv))
+        for pn, sig in spec.used_tparams:
+            params.append('(%s : %s)' % (self.var(pn, fn), sig))
         for a_, t in spec.self_attrs:
             if a_ in used:
                 params.append('(self_%s : %s)' % (a_, self.ctype(t)))
@@ -764,11 +1078,20 @@ PRELUDE = ('From Coq Require Import Arith.\n'
            'Local Open Scope nat_scope.\nLocal Open Scope list_scope.\nLocal Open Scope res_scope.\n\n')
 
 
-def translate_all(src, specs):
+def translate_all(src, specs, extra_prelude=''):
     """Translate the declared functions in order; later ones may call earlier methods of the same class."""
-    registry, out = {}, [PRELUDE]
+    registry, out = {}, [PRELUDE.rstrip('\n') + '\n' + extra_prelude + '\n']
     for spec in specs:
-        fn = find_func(src.tree(spec.rel), spec.name, spec.cls)
+        if spec.prop:
+            from astlib import find_class
+            cands = [st for st in find_class(src.tree(spec.rel), spec.cls).body
+                     if isinstance(st, ast.FunctionDef) and st.name == spec.name
+                     and any(isinstance(d, ast.Name) and d.id == 'property' for d in st.decorator_list)]
+            if len(cands) != 1:
+                raise TableError('expected exactly one @property getter %s.%s, found %d' % (spec.cls, spec.name, len(cands)))
+            fn = cands[0]
+        else:
+            fn = find_func(src.tree(spec.rel), spec.name, spec.cls)
         if spec.inner:
             inner = [n for n in fn.body if isinstance(n, ast.FunctionDef) and n.name == spec.inner]
             if len(inner) != 1:
